@@ -29,7 +29,41 @@ var c17Templates = []string{
 	"<div>\n<" + hX + "<xmp>",        // 19 stray '<' / tag start directly before a tag in an HTML block
 	"<div><xmp" + hX + "a>",          // 20 byte that ends (or does not end) a tag name
 	"> a <?" + hX + "\n> <xmp>?>",    // 21 multi-line inline raw HTML inside a container
+	"a <B> <" + hX + hX + hX + ">",   // 22 a second tag after one with an upper-case name
+	"<DIV>\n<" + hX + hX + hX + ">",  // 23 the same in an HTML block
 }
+
+// the nine element names of the GFM tagfilter extension
+var gfmNames = []string{"title", "textarea", "style", "xmp", "iframe", "noembed", "noframes", "script", "plaintext"}
+
+// H_C17_gfm(i, _): FilterTagGFM rejects the i-th raw-text element name in every
+// letter case (each letter's case is a solver variable), both as a predicate and
+// through rendering "<NAME>" inline and as the second line of an HTML block.
+func H_C17_gfm(i, _ int) {
+	name := []byte(gfmNames[i])
+	for k := range name {
+		if nondetBool() {
+			name[k] -= 'a' - 'A'
+		}
+	}
+	lower := []byte(gfmNames[i])
+	check(FilterTagGFM(lower), "C17.gfm.predicate")
+	for form := 0; form < 2; form++ {
+		var doc []byte
+		if form == 0 {
+			doc = append(doc, "a <"...)
+		} else {
+			doc = append(doc, "<div>\n<"...)
+		}
+		doc = append(doc, name...)
+		doc = append(doc, "> b\n"...)
+		blocks, refs := Parse(doc)
+		out := renderWith(&HTMLRenderer{ReferenceMap: refs, FilterTag: FilterTagGFM}, blocks)
+		check(!startTagRejected(out, FilterTagGFM), "C17.no-rejected-start-tag")
+		vdigest(out)
+	}
+}
+
 
 func filterXXmpScript(tag []byte) bool {
 	s := string(tag)
